@@ -197,7 +197,25 @@ def _srf(case, tags, **override):
     spec = dict(case["spec"])
     mean_u = override.pop("mean_u", case["mean_u"])
     spec.update(override)
-    model = lib(build_model, spec, _what="model construction", _tags=tags)
+    reuse = case.get("reuse")
+    start = dict(spec)
+    if reuse == "dim":
+        start["dim"] = 5 - spec["dim"]
+    elif reuse == "len_scale":
+        start["len_scale"] = spec["len_scale"] * 3.0
+    model = lib(build_model, start, _what="model construction", _tags=tags)
+    if reuse:
+        # an existing vector-field SRF whose model is changed in place afterwards (no new seed): the next field
+        # must be the one of the current model
+        srf = gs.SRF(model, generator="VectorField", seed=case["seed"], mode_no=case["mode_no"], mean_velocity=mean_u, sampling=case.get("sampling", "auto"))
+        with common.quiet():
+            srf(np.zeros((start["dim"], 1)))
+            if reuse == "dim":
+                srf.model.dim = spec["dim"]
+            else:
+                srf.model.len_scale = spec["len_scale"]
+            srf(np.zeros((spec["dim"], 1)))
+        return srf
     return lib(
         gs.SRF,
         model,
@@ -363,6 +381,11 @@ def gen_fd(draw, tier="quick"):
         "pos": draw(_points(dim, spec["len_scale"], n_max=3, mag=(1e-2, 30.0))),
         "variant": draw(st.sampled_from(["points", "points", "structured"])),
     }
+    r = draw(st.sampled_from([None, None, None, "dim", "len_scale"]))
+    if r == "dim" and (spec["cls"] in ("JBessel", "SuperSpherical", "TPLSimple") or gens.max_valid_dim(spec["cls"]) < 3):
+        r = "len_scale"  # dimension-dependent argument bounds are C14's known finding K6
+    if r:
+        case["reuse"] = r
     if draw(st.sampled_from([False, False, False, True, False, False, False])):
         nang = dim * (dim - 1) // 2
         ang = draw(st.lists(st.floats(-math.pi, math.pi), min_size=nang, max_size=nang))
@@ -420,6 +443,8 @@ def check_fd(case, rec):
     rec.nontrivial(_nontrivial(case))
     if rotated:
         rec.label("rotated_isotropic")
+    if case.get("reuse"):
+        rec.label("reused_after_inplace_" + case["reuse"])
     pos = np.array(case["pos"], dtype=float).reshape(dim, -1)
     srf = _srf(case, tags)
     require(bool(srf.model.is_isotropic), "generated model is not isotropic", dict(tags, kind="harness_isotropy"))
